@@ -130,3 +130,91 @@ def fingerprint(detail=False):
         per[name] = hashlib.sha1(json.dumps(c.out, default=str).encode()).hexdigest()
     return per if detail else hashlib.sha1(json.dumps(per, sort_keys=True).encode()).hexdigest()
 
+
+
+# ---------------------------------------------------------------------------
+# shallow state: one canonical value per named global / class attribute, so that a change can be
+# classified as additive (first-use memoisation: None -> value, a container that only gains
+# elements) or destructive (a value replaced, elements removed or altered)
+# ---------------------------------------------------------------------------
+class ShallowCanon(Canon):
+    """Like Canon, but parso classes and functions are named, not expanded (their attributes and
+    defaults are keys of their own in shallow_state)."""
+    def visit(self, o, depth=0):
+        if isinstance(o, type):
+            self.atom('cls', o.__module__, o.__qualname__)
+            return
+        if isinstance(o, (types.FunctionType, types.BuiltinFunctionType, types.MethodType, staticmethod,
+                          classmethod, property)):
+            f = getattr(o, '__func__', o)
+            self.atom('fn', getattr(f, '__module__', None), getattr(f, '__qualname__', repr(type(o))))
+            return
+        Canon.visit(self, o, depth)
+
+
+def _summ(o):
+    """('none',) | ('scalar', digest) | ('list', [digests]) | ('set', [digests]) | ('dict', {key: digest})"""
+    def dg(x):
+        c = ShallowCanon()
+        c.visit(x)
+        return hashlib.sha1(json.dumps(c.out, default=str).encode()).hexdigest()[:16]
+    if o is None:
+        return ('none',)
+    t = type(o)
+    if t is list:
+        return ('list', [dg(x) for x in o])
+    if t in (set, frozenset):
+        return ('set', sorted(dg(x) for x in o))
+    if t is dict:
+        return ('dict', {dg(k): dg(v) for k, v in o.items()})
+    return ('scalar', dg(o))
+
+
+def shallow_state():
+    st = {}
+    for name, mod in parso_modules():
+        for k in sorted(vars(mod)):
+            if k.startswith('__'):
+                continue
+            v = vars(mod)[k]
+            if isinstance(v, types.ModuleType):
+                continue
+            if isinstance(v, type):
+                if is_parso_class(v) and v.__module__ == name:
+                    for a in sorted(vars(v)):
+                        if a.startswith('__') and a.endswith('__') and a != '__slots__':
+                            continue
+                        st['%s.%s.%s' % (name, k, a)] = _summ(vars(v)[a])
+                continue
+            if isinstance(v, types.FunctionType):
+                if v.__module__ == name:
+                    st['%s.%s.<defaults>' % (name, k)] = _summ([v.__defaults__, v.__kwdefaults__])
+                continue
+            st['%s.%s' % (name, k)] = _summ(v)
+    return st
+
+
+def destructive_changes(before, after):
+    """Keys whose change is not explainable as first-use memoisation."""
+    bad = []
+    for k, a in before.items():
+        b = after.get(k)
+        if b is None:
+            bad.append((k, 'removed'))
+            continue
+        if a == b or a[0] == 'none':
+            continue
+        if a[0] != b[0]:
+            bad.append((k, 'replaced (%s -> %s)' % (a[0], b[0])))
+        elif a[0] == 'scalar':
+            bad.append((k, 'replaced'))
+        elif a[0] == 'list':
+            if b[1][:len(a[1])] != a[1]:
+                bad.append((k, 'list elements removed or altered'))
+        elif a[0] == 'set':
+            if not set(a[1]) <= set(b[1]):
+                bad.append((k, 'set elements removed or altered'))
+        elif a[0] == 'dict':
+            if any(b[1].get(kk) != vv for kk, vv in a[1].items()):
+                bad.append((k, 'dict entries removed or altered'))
+    return bad
